@@ -389,6 +389,28 @@ main(void)
 			free(key);
 			free(in);
 			put_digest(dig, dlen[a]);
+		} else if (hc_is("hmacip", 3) && (a = alg_of(hc_tok[1])) != A_NONE) {
+			/*
+			 * hmacip <alg> <key> <msg>: the one-shot MAC written over its own message (the library itself does
+			 * HMAC_SHA256_Buf(Key, 32, V, 32, V)): same value as `hmac`
+			 */
+			uint8_t * io;
+
+			key = hc_unhex(hc_tok[2], &klen);
+			in = hc_unhex(hc_tok[3], &len);
+			io = malloc(len > dlen[a] ? len : dlen[a]);
+			if (len > 0)
+				memcpy(io, in, len);
+			switch (a) {
+			case A_SHA256: HMAC_SHA256_Buf(key, klen, io, len, io); break;
+			case A_SHA1: HMAC_SHA1_Buf(key, klen, io, len, io); break;
+			default: HMAC_MD5_Buf(key, klen, io, len, io); break;
+			}
+			memcpy(dig, io, dlen[a]);
+			free(io);
+			free(key);
+			free(in);
+			put_digest(dig, dlen[a]);
 		} else if (hc_is("hmacinit", 2) && (a = alg_of(hc_tok[1])) != A_NONE) {
 			key = hc_unhex(hc_tok[2], &klen);
 			switch (a) {
